@@ -174,6 +174,7 @@ type sched struct {
 	maxSteps int
 	aborting bool
 	mapOrder map[any]int
+	ptrIDs   map[any]int // Sprintp: serial numbers of objects named by address
 	earlyTimers bool
 }
 
@@ -958,6 +959,24 @@ func MapTouch(k any) {
 func MapSet[K comparable, V any](m map[K]V, k K, v V) {
 	MapTouch(k)
 	m[k] = v
+}
+
+// Sprintp stands in for fmt.Sprintf("%p", x) in the code under test: under the scheduler
+// it names the object by the order in which objects were first named in this execution
+// (stable across replays), otherwise it is the address as before.
+func Sprintp(x any) string {
+	if s == nil {
+		return fmt.Sprintf("%p", x)
+	}
+	if s.ptrIDs == nil {
+		s.ptrIDs = map[any]int{}
+	}
+	id, ok := s.ptrIDs[x]
+	if !ok {
+		id = len(s.ptrIDs) + 1
+		s.ptrIDs[x] = id
+	}
+	return fmt.Sprintf("0xv%06d", id)
 }
 
 // MapKeys returns the keys of m in a deterministic order.
